@@ -246,3 +246,17 @@ CHECKS["C04"] = {
     "outside": ["UID allocation itself (SQLite AUTOINCREMENT; the relational stub models it, the engine cannot encode SQLite)", "restarts", "the CAS loop under real concurrency", "catch-up gaps larger than the bound"],
     "assumptions": ["lastUID - seconds since epoch <= gap (loop bound, checked by the engine's loop-unwinding limit)"],
 }
+
+BACKEND_WITH = ["verifdb"]
+
+CHECKS["C06"] = {
+    "explanation": "Symbolic execution of backend user.apply and every apply* / setMessageMailboxes / setMessageFlags / userDBWrite (real go/ssa) on a directly constructed user with the relational model and a store stub: symbolic update kind (all 11), target object (known / unknown / protected recovery object) and database/store fault schedule; obligations: acknowledged exactly once with the returned error, no panic, failed update leaves the index unchanged, every listed message keeps its bytes, duplicate delivery changes nothing.",
+    "harnesses": [
+        {"name": "apply", "pkg": "internal/backend", "pkgname": "backend", "entry": "VerifC06Apply", "files": ["zz_verif_backend.go"], "with": BACKEND_WITH,
+         "params": {"quick": grid(faults=[0, 1]), "thorough": grid(faults=[0, 1, 2])},
+         "cover": ["apply-ok", "apply-error", "replay-ok"]},
+    ],
+    "stubs": ["internal/verifdb relational model with symbolic failures per operation", "store.Store stub with symbolic failures", "runtime.NumCPU -> 1 (sequential branch of parallel.DoContext)", "no session states attached (queueStateUpdate has no receivers)"],
+    "outside": ["the update goroutine / channel plumbing (updateInjector, newUser loop)", "the responses sessions would emit for the queued state updates (decided separately by C02 for the same update types)"],
+    "assumptions": [],
+}
